@@ -127,6 +127,9 @@ type delivery struct {
 	closeAfter   bool          // close the connection right after responding
 	silentAfter  bool          // respond, then never answer anything again
 	raw          []byte        // replaces the serialised response when non-nil
+	chatter      []byte        // written every chatterEvery, chatterN times, while the response is withheld
+	chatterEvery time.Duration
+	chatterN     int
 }
 
 type mediaTr struct {
@@ -493,6 +496,22 @@ func (s *server) handle(sc *sconn, req *base.Request) bool {
 		}
 		s.mu.Lock()
 		t.Stop()
+	}
+	for i := 0; i < d.chatterN && !s.silent; i++ {
+		t := vtime.NewTimer(d.chatterEvery)
+		s.mu.Unlock()
+		stopped := false
+		select {
+		case <-t.C:
+		case <-s.stop:
+			stopped = true
+		}
+		s.mu.Lock()
+		t.Stop()
+		if stopped {
+			break
+		}
+		s.write(sc, d.chatter)
 	}
 	if d.closeInstead {
 		return true
